@@ -15,3 +15,4 @@ import ThriftVerif.Props.C18
 #print axioms Props.C18.deep_equal_refl
 #print axioms Props.C18.spec_symmetric
 #print axioms Props.C18.deep_equal_symm_partial
+#print axioms Props.C18.deep_equal_iff_repaired
